@@ -7,8 +7,8 @@
    arbitrary pages) are only required not to crash or wedge.                                         *)
 EXTENDS UI, Json
 Log == ndJsonDeserialize("trace.ndjson")
-VARIABLES l, sid, skip, bad, cands, lens
-vars == <<l, sid, skip, bad, cands, lens>>
+VARIABLES l, sid, skip, bad, cands, lens, hp
+vars == <<l, sid, skip, bad, cands, lens, hp>>
 
 HookTarget(h) == CASE h.k = "link"  -> LinkTarget[h.item][h.n]
                    [] h.k = "media" -> "media_" \o h.item
@@ -17,26 +17,33 @@ HookTarget(h) == CASE h.k = "link"  -> LinkTarget[h.item][h.n]
                    [] OTHER -> "none"
 HookMatches(h, calls) == IF h.k = "none" THEN calls = <<>>
                          ELSE Len(calls) = 1 /\ calls[1].target = HookTarget(h)
-Outcomes(k, e) == UNION {{IF r.hook.k # "none" THEN HookExit(r.st) ELSE r.st : r \in {x \in KeyNext(s, k) : HookMatches(x.hook, e.hooks)}} : s \in cands}
+(* held sessions: the hook started by a key is still running when the next key arrives; its end is the
+   `hookexit` line (hp counts the hooks started since the last one) *)
+Outcomes(k, e) == UNION {{IF r.hook.k # "none" /\ ~e.held THEN HookExit(r.st) ELSE r.st : r \in {x \in KeyNext(s, k) : HookMatches(x.hook, e.hooks)}} : s \in cands}
 
-Init == l = 1 /\ sid = 0 /\ skip = FALSE /\ bad = <<>> /\ cands = {} /\ lens = <<>>
-Reject(why) == /\ bad' = Append(bad, [sid |-> sid, line |-> l, why |-> why]) /\ skip' = TRUE /\ UNCHANGED <<sid, cands, lens>>
+Init == l = 1 /\ sid = 0 /\ skip = FALSE /\ bad = <<>> /\ cands = {} /\ lens = <<>> /\ hp = 0
+Reject(why) == /\ bad' = Append(bad, [sid |-> sid, line |-> l, why |-> why]) /\ skip' = TRUE /\ UNCHANGED <<sid, cands, lens, hp>>
 Step == /\ l <= Len(Log) /\ l' = l + 1
         /\ LET e == Log[l] IN
-           CASE e.ev = "reset" -> sid' = e.sid /\ skip' = FALSE /\ cands' = {Init0(e.start)} /\ lens' = e.lens /\ UNCHANGED bad
+           CASE e.ev = "reset" -> sid' = e.sid /\ skip' = FALSE /\ cands' = {Init0(e.start)} /\ lens' = e.lens /\ hp' = 0 /\ UNCHANGED bad
+             [] e.ev = "hookexit" /\ ~skip ->
+                  IF e.wedged THEN Reject("interface wedged (loads never settled)")
+                  ELSE LET next == {s \in {IF hp > 0 THEN HookExit(c) ELSE c : c \in cands} : Proj(s, lens) = e.obs} IN
+                       IF next = {} THEN Reject("state after the hook ended is not what the keymap predicts")
+                       ELSE cands' = next /\ hp' = 0 /\ UNCHANGED <<sid, skip, bad, lens>>
              [] e.ev = "key" /\ ~skip ->
                   IF e.k = "bs" /\ \E s \in cands : s.buf # <<>> /\ s.buf[Len(s.buf)] \in CmdToks
-                  THEN skip' = TRUE /\ UNCHANGED <<sid, bad, cands, lens>>     \* editing inside a macro token is not modelled
+                  THEN skip' = TRUE /\ UNCHANGED <<sid, bad, cands, lens, hp>>     \* editing inside a macro token is not modelled
                   ELSE IF e.panic THEN Reject("panic")
                   ELSE IF e.wedged THEN Reject("interface wedged (loads never settled)")
                   ELSE LET next == {s \in Outcomes(e.k, e) : Proj(s, lens) = e.obs} IN
                        IF next = {} THEN Reject("state after the key is not what the keymap predicts")
-                       ELSE cands' = next /\ UNCHANGED <<sid, skip, bad, lens>>
+                       ELSE cands' = next /\ hp' = (IF e.held /\ e.hooks # <<>> THEN hp + 1 ELSE hp) /\ UNCHANGED <<sid, skip, bad, lens>>
              [] e.ev = "wild" ->
                   IF e.panic \/ e.wedged
-                  THEN bad' = Append(bad, [sid |-> e.sid, line |-> l, why |-> IF e.panic THEN "panic" ELSE "interface wedged (loads never settled)"]) /\ UNCHANGED <<sid, skip, cands, lens>>
-                  ELSE UNCHANGED <<sid, skip, bad, cands, lens>>
-             [] OTHER -> UNCHANGED <<sid, skip, bad, cands, lens>>
+                  THEN bad' = Append(bad, [sid |-> e.sid, line |-> l, why |-> IF e.panic THEN "panic" ELSE "interface wedged (loads never settled)"]) /\ UNCHANGED <<sid, skip, cands, lens, hp>>
+                  ELSE UNCHANGED <<sid, skip, bad, cands, lens, hp>>
+             [] OTHER -> UNCHANGED <<sid, skip, bad, cands, lens, hp>>
 Spec == Init /\ [][Step]_vars
 Done == (l = Len(Log) + 1) => PrintT("VERDICT " \o ToJson([consumed |-> l - 1, bad |-> bad]))
 =============================================================================
